@@ -85,6 +85,18 @@ Definition filter_kw (c : ecls) (k : kwds elem) : kwds elem :=
       (o "propertyNames" (k_propertyNames k)) (o "dependencies" (k_dependencies k))
       (o "description" (k_description k)).
 
+(* Array(items=schema.get("items", Element()), **filtered keywords) *)
+Definition arr_record (K : kwds elem) : kwds elem :=
+  let k := filter_kw CArray K in
+  match k_items k with
+  | Some _ => k
+  | None => mkK (k_default k) (k_const k) (k_enum k) (Some (ItOne EElement))
+                (k_additionalItems k) (k_minItems k) (k_maxItems k)
+                (k_uniqueItems k) (k_contains k) None None None None None None
+                None None None None None None (AddBool true) None None None None
+                (k_description k)
+  end.
+
 Definition set_default (k : kwds elem) (d : option json) : kwds elem :=
   mkK d (k_const k) (k_enum k) (k_items k) (k_additionalItems k) (k_minItems k) (k_maxItems k)
       (k_uniqueItems k) (k_contains k) (k_minimum k) (k_maximum k) (k_exclusiveMinimum k)
@@ -111,6 +123,24 @@ Definition jstr (j : option json) : option str :=
   match j with Some (JStr s) => Some s | _ => None end.
 Definition jbool_or (j : option json) (d : bool) : bool :=
   match j with Some (JBool b) => b | _ => d end.
+
+(* the keyword record handed to the element constructors: raw keyword values, cleaned
+   literals, and the already parsed sub-schemas *)
+Definition kw_record (kvs : list (str * json))
+           (props : option (list (str * prop elem))) (items : option (items_t elem))
+           (pats : option (list (str * elem))) (pnames contains : option elem)
+           (deps : option (list (str * dep_t elem))) (addp addi : addl elem) : kwds elem :=
+  let get (s : String.string) := lookup (s_ s) kvs in
+  let lit (s : String.string) := match get s with Some j => Some (strip_autotitle j) | None => None end in
+  mkK (lit "default") (lit "const")
+      (match lit "enum" with Some (JArr l) => Some l | _ => None end)
+      items addi (get "minItems") (get "maxItems") (jbool_or (get "uniqueItems") false)
+      contains (get "minimum") (get "maximum") (get "exclusiveMinimum")
+      (get "exclusiveMaximum") (get "multipleOf") (jstr (get "format")) (jstr (get "pattern"))
+      (get "minLength") (get "maxLength")
+      (match get "required" with Some j => Some (jstr_list j) | None => None end)
+      props pats addp (get "minProperties") (get "maxProperties") pnames deps
+      (jstr (get "description")).
 
 Section WithKey.
   Context {A : Type}.
@@ -249,15 +279,7 @@ Section Parser.
     if str_eqb t (s_ "object") then parse_object S K
     else if has_key (s_ "self") S then fail PCrash   (* **{"self": ...} collides with the bound self *)
     else if str_eqb t (s_ "array") then
-      ret (EK CArray (let k := filter_kw CArray K in
-                      match k_items k with
-                      | Some _ => k
-                      | None => mkK (k_default k) (k_const k) (k_enum k) (Some (ItOne EElement))
-                                    (k_additionalItems k) (k_minItems k) (k_maxItems k)
-                                    (k_uniqueItems k) (k_contains k) None None None None None None
-                                    None None None None None None (AddBool true) None None None None
-                                    (k_description k)
-                      end))
+      ret (EK CArray (arr_record K))
     else match lookup t type_mapping with
          | Some c => ret (EK c (filter_kw c K))
          | None => fail PCrash           (* KeyError on an unknown type name *)
@@ -315,16 +337,7 @@ Section Parser.
       do deps <- with_key (parse_deps parse_element) (s_ "dependencies") kvs (ret None);;
       do addp <- with_key (parse_addl parse_element) (s_ "additionalProperties") kvs (ret (AddBool true));;
       do addi <- with_key (parse_addl parse_element) (s_ "additionalItems") kvs (ret (AddBool true));;
-      let K : kwds elem :=
-        mkK (lit "default") (lit "const")
-            (match lit "enum" with Some (JArr l) => Some l | _ => None end)
-            items addi (get "minItems") (get "maxItems") (jbool_or (get "uniqueItems") false)
-            contains (get "minimum") (get "maximum") (get "exclusiveMinimum")
-            (get "exclusiveMaximum") (get "multipleOf") (jstr (get "format")) (jstr (get "pattern"))
-            (get "minLength") (get "maxLength")
-            (match get "required" with Some j => Some (jstr_list j) | None => None end)
-            props pats addp (get "minProperties") (get "maxProperties") pnames deps
-            (jstr (get "description")) in
+      let K : kwds elem := kw_record kvs props items pats pnames contains deps addp addi in
       let has_comp := existsb (fun kv => mem_str (fst kv) composition_keywords) kvs in
       if negb has_comp then finish_plain kvs K
       else
